@@ -341,6 +341,60 @@ def filtermapSignature (verdictName : Ident) (params : List RotoTy) (a r : Optio
   | some ret => some ⟨params, ret⟩
   | none => none
 
+/-! ### `force_filtermap_types` as read off the source
+
+  The translator (`Gen.GateSig.forceArms`) lists the statements
+  `if let Type::P(x) = self.resolve_type(side) { self.unify(&Type::P(x), &Type::F(), …) }`
+  of the function as (side, P, F). Interpreted: -/
+
+/-- does a resolved type match the pattern `Type::P(..)`? -/
+def matchesPat (p : Ident) : RotoTy → Bool
+  | .var _ => p == id% "Var"
+  | .intVar => p == id% "IntVar"
+  | .floatVar => p == id% "FloatVar"
+  | _ => false
+
+/-- `Type::unit()`, `Type::i32()`, … by constructor-function name -/
+def forcedTy (f : Ident) : RotoTy :=
+  if f == id% "unit" then .unit else .named f []
+
+/-- what the listed statements do to the side `side` whose resolved type is
+    `t` (a unification of a variable with a closed type makes it that type;
+    at most one statement can apply, the first that matches) -/
+def forceSideBy : List (Ident × Ident × Ident) → Ident → RotoTy → RotoTy
+  | [], _, t => t
+  | (s, p, f) :: rest, side, t =>
+    if s == side && matchesPat p t then forcedTy f else forceSideBy rest side t
+
+/-! ### What a signature is compiled at
+
+  `TypeInfo::convert` (the types the code of a function is generated for) maps
+  a literal type variable that nothing constrained to `i32` / `f64` wherever it
+  occurs, also below type constructors: `Option[{integer}]` is compiled as
+  `Option[i32]`. -/
+mutual
+def deepDefault (tb : Tables) : RotoTy → RotoTy
+  | .intVar => .named tb.intDefault []
+  | .floatVar => .named tb.floatDefault []
+  | .name n args => .name n (deepDefaultList tb args)
+  | t => t
+def deepDefaultList (tb : Tables) : List RotoTy → List RotoTy
+  | [] => []
+  | a :: as => deepDefault tb a :: deepDefaultList tb as
+end
+
+/- does a literal type variable occur in the type (at any depth)? -/
+mutual
+def hasLiteral : RotoTy → Bool
+  | .intVar => true
+  | .floatVar => true
+  | .name _ args => hasLiteralList args
+  | _ => false
+def hasLiteralList : List RotoTy → Bool
+  | [] => false
+  | a :: as => hasLiteral a || hasLiteralList as
+end
+
 /-- the fixed signature of `test name { … }` (`typechecker/function.rs`) -/
 def testSignature (verdictName : Ident) : Signature :=
   ⟨[], .named verdictName [.unit, .unit]⟩
